@@ -428,8 +428,43 @@ func maxI64(a, b int64) int64 {
 
 // ---- maps (deterministic iteration, symbolic keys by forking on equality) ----
 
+// concretizeKey replaces symbolic integer components of a map key by concrete values (forking over
+// the feasible values, found through solver models): map keys with symbolic tile indices etc.
+func concretizeKey(fr *frame, key value) value {
+	pc := fr.i.pc
+	switch k := key.(type) {
+	case sym:
+		if k.k == skInt || k.k == skBV {
+			c := pc.concretizeByModel(k.t, func(c int64) string { return eqConst(k, c) }, 64)
+			return concreteOfKind(k.bk, c)
+		}
+	case structure:
+		if !containsSym(k) {
+			return key
+		}
+		out := make(structure, len(k))
+		for i := range k {
+			out[i] = concretizeKey(fr, k[i])
+		}
+		return out
+	case array:
+		if !containsSym(k) {
+			return key
+		}
+		out := make(array, len(k))
+		for i := range k {
+			out[i] = concretizeKey(fr, k[i])
+		}
+		return out
+	}
+	return key
+}
+
 func mapUpdateS(fr *frame, m, key, v value) {
 	pc := fr.i.pc
+	if !pc.concrete && containsSym(key) {
+		key = concretizeKey(fr, key)
+	}
 	if pc.watching {
 		pc.checkMapWrite(fr, m)
 	}
@@ -535,6 +570,9 @@ func resolveSymKeyHM(fr *frame, m *hashmap, key value) value {
 }
 
 func lookupS(fr *frame, instr *ssa.Lookup, x, idx value) value {
+	if !fr.i.pc.concrete && containsSym(idx) {
+		idx = concretizeKey(fr, idx)
+	}
 	switch m := x.(type) {
 	case map[value]value:
 		if isSym(idx) || containsSym(idx) {
